@@ -108,6 +108,9 @@ type c14WThing struct {
 	tags   []string
 	others []string
 	boss   *string
+	rc     []string // ref-counted links (re-use cases); hasRc == false: never linked, no bucket
+	hasRc  bool
+	rcSet  bool // the row carries the fourth field
 }
 
 type c14WOther struct {
@@ -164,7 +167,14 @@ func c14ParseWorld(th, ot string) *c14World {
 		for _, r := range strings.Split(th, "+") {
 			p := strings.SplitN(r, "=", 2)
 			f := strings.Split(p[1], "/")
-			w.things = append(w.things, c14WThing{id: fromWire(p[0]), tags: c14ParseDotList(f[0]), others: c14ParseDotList(f[1]), boss: c14ParseOpt(f[2])})
+			t := c14WThing{id: fromWire(p[0]), tags: c14ParseDotList(f[0]), others: c14ParseDotList(f[1]), boss: c14ParseOpt(f[2])}
+			if len(f) > 3 {
+				t.rcSet = true
+				if f[3] != "~" {
+					t.hasRc, t.rc = true, c14ParseDotList(f[3])
+				}
+			}
+			w.things = append(w.things, t)
 		}
 	}
 	if ot != "_" {
@@ -183,6 +193,13 @@ func (w *c14World) String() string {
 		rows := make([]string, len(w.things))
 		for i, t := range w.things {
 			rows[i] = toWire(t.id) + "=" + c14ShowDotList(t.tags) + "/" + c14ShowDotList(t.others) + "/" + c14ShowOpt(t.boss)
+			if t.rcSet {
+				if t.hasRc {
+					rows[i] += "/" + c14ShowDotList(t.rc)
+				} else {
+					rows[i] += "/~"
+				}
+			}
 		}
 		th = strings.Join(rows, "+")
 	}
@@ -368,9 +385,10 @@ func c14GetDb() *bbolt.DB {
 }
 
 type c14Fixture struct {
-	desc string
-	root *c14Node
-	next int
+	desc  string
+	root  *c14Node
+	next  int
+	reuse *c14ReuseFx // re-use cases (c14_reuse.go)
 }
 
 var c14Cur *c14Fixture
@@ -633,6 +651,9 @@ func c14Exec(line string) string {
 	}
 	if len(f) != 2 {
 		return "bad-case"
+	}
+	if strings.HasPrefix(f[0], "R;") {
+		return c14ReuseExec(f)
 	}
 	db := c14GetDb()
 	ops := c14ParseOps(f[1])
@@ -1031,5 +1052,6 @@ func c14Gen(tier string, seed uint64, out *bufio.Writer) {
 			fmt.Fprintf(out, "%s %s\n", d, c14ShowOps(c14GenOps(r, sh, 6, targets)))
 		}
 	}
+	c14GenReuse(tier, r, out)
 	c14GenBlocks(tier, out)
 }
